@@ -23,6 +23,8 @@ func main() {
 		cmdDump(os.Args[2:])
 	case "check":
 		cmdCheck(os.Args[2:])
+	case "ledger":
+		cmdLedger(os.Args[2:])
 	default:
 		fmt.Println("unknown command")
 		os.Exit(2)
@@ -135,6 +137,3 @@ func cmdSweep(args []string) {
 	fmt.Printf("%d named obligations, %d not discharged\n", len(names), bad)
 }
 
-func cmdCheck(args []string) {
-	fmt.Println("not yet")
-}
